@@ -226,6 +226,10 @@ fn cases_for(a: &Alph, tier: Tier, seed: u64, full: bool) -> Vec<Case> {
         for (x, y) in [("T3", "T3"), ("T3", "N0"), ("N0", "N0"), ("G", "T3"), ("P0", "-P0"), ("Id", "N0")] {
             push(Case { cv, op: Op::Add, ins: vec![vp(&a.p(x)), vp(&a.p(y))], lenient: false });
         }
+        // a full-size constant (windowed-msm path of mul_by_constant) on a generic and on the identity base
+        for p in ["P0", "Id"] {
+            push(Case { cv, op: Op::MulByConst(a.s("2^128")), ins: vec![vp(&a.p(p))], lenient: false });
+        }
         for k in [sc("3", BigUint::from(3u32)), sc("2^64+1", (BigUint::one() << 64) + 1u32)] {
             for p in ["G", "T3", "N0"] {
                 // the foreign chip assumes "no low-order points": multiples of the order-3 point run
@@ -313,7 +317,8 @@ fn cases_for(a: &Alph, tier: Tier, seed: u64, full: bool) -> Vec<Case> {
     ];
     if !tier.is_thorough() && cv != Cv::Jub {
         // the full-size constants go through the windowed msm (k >= 14): thorough only
-        consts.retain(|c| c.v.bits() <= 128);
+        // (one of them, 2^128, is kept for an honest run)
+        consts.retain(|c| c.v.bits() <= 128 || c.label == "2^128");
     }
     for k in &consts {
         for p in ["P0", "Id", "G"] {
@@ -750,6 +755,66 @@ fn main() {
         }
     }
 
+    // ---- phase 4: Jubjub point compression / decompression through ZKIR
+    let zcases: Vec<(String, zk::ZCase)> = {
+        let j = &alphs[0];
+        let q = Cv::Jub.p();
+        let mut v: Vec<zk::ZCase> = vec![];
+        for p in &j.pts {
+            let (x, y, _) = p.rp.xy();
+            for dir in [zk::Dir::Compress, zk::Dir::Decompress] {
+                v.push(zk::ZCase { dir, label: p.label.clone(), bytes: zk::repr_j(&x, &y), x: x.clone(), y: y.clone(), valid: true, idxs: vec![] });
+            }
+        }
+        // invalid encodings (decompression must fail)
+        let mut bad = |label: &str, bytes: Vec<u8>, x: BigUint, y: BigUint| v.push(zk::ZCase { dir: zk::Dir::Decompress, label: label.to_string(), bytes, x, y, valid: false, idxs: vec![] });
+        for p in &j.outside {
+            let (x, y, _) = p.rp.xy();
+            bad(&format!("outside-subgroup:{}", p.label), zk::repr_j(&x, &y), x, y);
+        }
+        let (x0, y0, _) = j.p("P0").rp.xy();
+        let mut id_sign = vec![0u8; 32];
+        id_sign[0] = 1;
+        id_sign[31] = 0x80;
+        bad("identity-with-sign-bit", id_sign, BigUint::zero(), BigUint::one());
+        bad("y=q+1-alias-of-identity", vcore::big::to_le(&(&q + 1u32), 32), BigUint::zero(), BigUint::one());
+        let mut off = 1u32;
+        let y_off = loop {
+            let y = (&y0 + off) % &q;
+            if jub_from_y(&y).is_none() {
+                break y;
+            }
+            off += 1;
+        };
+        bad("y-not-on-curve", vcore::big::to_le(&y_off, 32), x0.clone(), y_off.clone());
+        v.into_iter().map(|c| (c.key(), c)).collect()
+    };
+    let zks: Mutex<HashMap<String, (u32, u64)>> = Mutex::new(HashMap::new());
+    cx.run_cases("zkir-honest", &zcases, |c| {
+        let mut out = CaseOut::batch();
+        match zk::zk_min_k(c) {
+            Ok(k) => {
+                if let Some(n) = zk::zk_honest(c, k, &mut out) {
+                    zks.lock().unwrap().insert(c.key(), (k, n));
+                }
+            }
+            Err(p) => out.viol(Viol::new(format!("zkir:{:?}(JubjubPoint):sizing-panic", c.dir), format!("min_k panicked: {p}"), json!({"case": c.key()}))),
+        }
+        out
+    });
+    let mut zks = zks.into_inner().unwrap();
+    if let Some(r) = &replay {
+        for (key, c) in &zcases {
+            if *key == r.base && c.valid && !zks.contains_key(key) {
+                if let Ok(k) = zk::zk_min_k(c) {
+                    if let Some(n) = zk::zk_honest(c, k, &mut CaseOut::batch()) {
+                        zks.insert(key.clone(), (k, n));
+                    }
+                }
+            }
+        }
+    }
+
     // ---- phase 2: 1 deviation, propagate mode
     let all_faults = {
         let mut f = vgad::default_faults(seed);
@@ -783,20 +848,20 @@ fn main() {
             (Tier::Quick, Cv::Bls) => None,
             (Tier::Thorough, Cv::Jub) => {
                 if n <= 400 {
-                    (nth_shape < 3).then_some(1)
+                    (nth_shape < 2).then_some(1)
                 } else if matches!(c.op, Op::Msm { .. }) && nth == 0 {
                     Some(1) // one complete sweep of a variable-base multiplication
                 } else {
-                    (nth < 6 && nth_shape < 1).then(|| by_target(160))
+                    (nth < 4 && nth_shape < 1).then(|| by_target(128))
                 }
             }
             (Tier::Thorough, Cv::Secp) => {
                 if k >= 13 {
                     (nth < 2 && nth_shape < 1).then(|| by_target(128))
                 } else if matches!(c.op, Op::Add) {
-                    (nth < 4).then_some(1)
+                    (nth < 3).then_some(1)
                 } else {
-                    (nth < 1).then_some(1)
+                    (nth < 1).then(|| if n <= 1500 { 1 } else { by_target(600) })
                 }
             }
             (Tier::Thorough, Cv::Bls) => {
@@ -893,11 +958,13 @@ fn main() {
     );
     fcases.sort_by_key(|(_, (c, _))| kof(c).unwrap());
     tcases.sort_by_key(|(_, (c, _))| kof(c).unwrap());
+    // (ordered by circuit size, so that a wall-budget cut removes the heaviest tail only)
     cx.run_cases("faults", &fcases, |(c, idxs)| {
         let mut out = CaseOut::batch();
         vgad::explore_faults(c, kof(c).unwrap(), idxs, if c.cv == Cv::Jub { &faults_native } else { &faults_foreign }, &mut out);
         out
     });
+
     // ---- phase 2b: 1 deviation, table-only mode (Jubjub: the witness code of the native chip
     // panics on most propagated faults, so the gates themselves are probed here)
     let tfaults: Vec<_> = all_faults.iter().filter(|(n, _)| if tier.is_thorough() { ["+1", "zero", "neg", "random"].contains(n) } else { ["+1", "zero"].contains(n) }).cloned().collect();
@@ -910,7 +977,7 @@ fn main() {
     // ---- phase 3: 2 deviations for the smallest operations
     let f2: Vec<_> = all_faults.iter().filter(|(n, _)| if tier.is_thorough() { ["+1", "zero", "neg"].contains(n) } else { ["+1", "neg"].contains(n) }).cloned().collect();
     let mut pcases: Vec<(String, (Case, Vec<(u64, u64)>))> = vec![];
-    let max_n = tier.pick(40u64, 90u64);
+    let max_n = tier.pick(40u64, 64u64);
     let mut seen_ops: BTreeSet<String> = BTreeSet::new();
     for (key, c) in &cases {
         let Some(n) = nassign.get(key).copied() else { continue };
@@ -940,66 +1007,8 @@ fn main() {
         out
     });
 
-    // ---- phase 4: Jubjub point compression / decompression through ZKIR
-    let zcases: Vec<(String, zk::ZCase)> = {
-        let j = &alphs[0];
-        let q = Cv::Jub.p();
-        let mut v: Vec<zk::ZCase> = vec![];
-        for p in &j.pts {
-            let (x, y, _) = p.rp.xy();
-            for dir in [zk::Dir::Compress, zk::Dir::Decompress] {
-                v.push(zk::ZCase { dir, label: p.label.clone(), bytes: zk::repr_j(&x, &y), x: x.clone(), y: y.clone(), valid: true, idxs: vec![] });
-            }
-        }
-        // invalid encodings (decompression must fail)
-        let mut bad = |label: &str, bytes: Vec<u8>, x: BigUint, y: BigUint| v.push(zk::ZCase { dir: zk::Dir::Decompress, label: label.to_string(), bytes, x, y, valid: false, idxs: vec![] });
-        for p in &j.outside {
-            let (x, y, _) = p.rp.xy();
-            bad(&format!("outside-subgroup:{}", p.label), zk::repr_j(&x, &y), x, y);
-        }
-        let (x0, y0, _) = j.p("P0").rp.xy();
-        let mut id_sign = vec![0u8; 32];
-        id_sign[0] = 1;
-        id_sign[31] = 0x80;
-        bad("identity-with-sign-bit", id_sign, BigUint::zero(), BigUint::one());
-        bad("y=q+1-alias-of-identity", vcore::big::to_le(&(&q + 1u32), 32), BigUint::zero(), BigUint::one());
-        let mut off = 1u32;
-        let y_off = loop {
-            let y = (&y0 + off) % &q;
-            if jub_from_y(&y).is_none() {
-                break y;
-            }
-            off += 1;
-        };
-        bad("y-not-on-curve", vcore::big::to_le(&y_off, 32), x0.clone(), y_off.clone());
-        v.into_iter().map(|c| (c.key(), c)).collect()
-    };
-    let zks: Mutex<HashMap<String, (u32, u64)>> = Mutex::new(HashMap::new());
-    cx.run_cases("zkir-honest", &zcases, |c| {
-        let mut out = CaseOut::batch();
-        match zk::zk_min_k(c) {
-            Ok(k) => {
-                if let Some(n) = zk::zk_honest(c, k, &mut out) {
-                    zks.lock().unwrap().insert(c.key(), (k, n));
-                }
-            }
-            Err(p) => out.viol(Viol::new(format!("zkir:{:?}(JubjubPoint):sizing-panic", c.dir), format!("min_k panicked: {p}"), json!({"case": c.key()}))),
-        }
-        out
-    });
-    let mut zks = zks.into_inner().unwrap();
-    if let Some(r) = &replay {
-        for (key, c) in &zcases {
-            if *key == r.base && c.valid && !zks.contains_key(key) {
-                if let Ok(k) = zk::zk_min_k(c) {
-                    if let Some(n) = zk::zk_honest(c, k, &mut CaseOut::batch()) {
-                        zks.insert(key.clone(), (k, n));
-                    }
-                }
-            }
-        }
-    }
-    let zfaults = if tier.is_thorough() { all_faults.clone() } else { pick(&["+1", "1-v", "neg", "random"]) };
+    // ---- phase 4b: ZKIR compression / decompression under faults
+    let zfaults = if tier.is_thorough() { pick(&["+1", "-1", "zero", "1-v", "neg", "random"]) } else { pick(&["+1", "1-v", "neg", "random"]) };
     let mut zf: Vec<(String, zk::ZCase)> = vec![];
     let mut zstride: Vec<String> = vec![];
     for (key, c) in &zcases {
@@ -1030,7 +1039,6 @@ fn main() {
     for s in &zstride {
         cx.note(format!("fault stride — {s}"));
     }
-
     // ---- rule, notes, caps
     let strided: Vec<String> = strides.iter().filter(|(_, (s, _))| *s > 1).map(|(k, (s, n))| format!("{k}: every {s}-th of {n} assignments")).collect();
     let full_cnt = strides.values().filter(|(s, _)| *s == 1).count();
@@ -1072,7 +1080,11 @@ fn main() {
         cx.cap("foreign msm has ~7*10^4 (secp256k1) / ~1.2*10^5 (BLS) advice assignments at 0.7-2 s per verdict: the complete cell sweep of one operand pair asked for by the design does not fit; a stride is used instead".to_string());
     }
     let free = free.into_inner().unwrap();
-    cx.note(format!("cells whose table value is not constrained (table-only fault accepted, exposed vector unchanged): {}", if free.is_empty() { "none".to_string() } else { free.iter().cloned().collect::<Vec<_>>().join("; ") }));
+    cx.note(format!(
+        "cells whose table value is not constrained (table-only fault accepted, exposed vector unchanged; reviewed at bring-up: the zero padding cells of the parallel range-check \
+         row written by the native byte assignment — accepted for +1, rejected for +2^8 — and inverse hints of equality tests on equal operands): {}",
+        if free.is_empty() { "none".to_string() } else { free.iter().cloned().collect::<Vec<_>>().join("; ") }
+    ));
     cx.note(format!(
         "accepted exposed vectors that were well-formed but not canonical: {} emulated field element(s) in the v+m form, {} identity flag(s) with non-zero coordinates (judged by denoted value)",
         NONCANON_FIELD.load(Ordering::Relaxed),
